@@ -215,6 +215,99 @@ pub fn run_property(id: &'static str) -> ! {
       }
     }
   }
+  // ---- project layouts: one program per (family, shape) class again as module `app.deep.Main`,
+  // compiled together with a second entry module, entry points in both orders; every launcher is run ----
+  let layout_report;
+  {
+    let mut seen: HashSet<(String, String)> = HashSet::new();
+    let mut picked: Vec<&Eval> = vec![];
+    for e in &evals {
+      let Some(r) = &e.reference else { continue };
+      if e.rejected.is_some() || e.compile.is_err() || unspecified(r) || e.prog.family == "class-bound" {
+        continue;
+      }
+      // only programs that are fine in the plain layout: a deviation there is reported there
+      let (Some(w), Some(t)) = (&e.wasm, &e.ts) else { continue };
+      if same_as_ref(r, w).is_some() || same_as_ref(r, t).is_some() {
+        continue;
+      }
+      if seen.insert((e.prog.family.to_string(), e.prog.shape.clone())) {
+        picked.push(e);
+      }
+    }
+    // quick: every family's first class and every 8th class after it
+    if !thorough {
+      let mut fams: HashSet<&str> = HashSet::new();
+      let mut k = 0usize;
+      picked.retain(|e| {
+        k += 1;
+        fams.insert(e.prog.family) || k % 8 == 0
+      });
+    }
+    let progs: Vec<&Prog> = picked.iter().map(|e| &e.prog).collect();
+    let layouts = evalprog::evaluate_layouts(&progs, &format!("{id}-layouts")).unwrap_or_else(|e| machinery_failure(&e));
+    let second_ok = |x: &RunResult| x.ending == REnding::Return && x.lines == evalprog::SECOND_LINES;
+    for l in &layouts {
+      let e = picked[l.prog_index];
+      let r = e.reference.as_ref().unwrap();
+      let order = if l.main_first { "program entry first" } else { "program entry second" };
+      let payload = |extra: Value| json!({"program": e.prog.text, "name": e.prog.name, "shape": e.prog.shape, "layout": {"module": "app.deep.Main", "second_entry_module": evalprog::SECOND_MODULE, "entry_order": order}, "detail": extra});
+      let sig = |m: &str| format!("layout|{}|{}|{m}", e.prog.family, e.prog.shape);
+      match &l.compile {
+        Err(CompileFail::Panicked(p)) => {
+          if id == "C03" {
+            run.violation(&sig(&format!("compile-panic:{}", compile_panic_signature(p))), &format!("compilation with two entry points crashed ({}) for `{}` ({order})", p.chars().take(160).collect::<String>(), e.prog.name), payload(json!(null)));
+          }
+          continue;
+        }
+        Err(CompileFail::Rejected(m)) => {
+          if id == "C03" {
+            run.violation(&sig("compile-rejected"), &format!("a program accepted as module Main is rejected as module app.deep.Main next to a second entry: {}", m.chars().take(160).collect::<String>()), payload(json!(null)));
+          }
+          continue;
+        }
+        Ok(()) => {}
+      }
+      let ((mw, mt), (sw, st)) = (l.main.as_ref().unwrap(), l.second.as_ref().unwrap());
+      compared += 1;
+      match id {
+        "C01" => {
+          if let Some(m) = same_as_ref(r, mw) {
+            run.violation(&sig(&m), &format!("WebAssembly launcher of `{}` as app.deep.Main ({order}) deviates from the source semantics ({m}; {})", e.prog.name, first_diff(&r.lines, &mw.lines)), payload(json!({"wasm": {"lines": mw.lines, "ending": rend(&mw.ending)}})));
+          }
+          if !second_ok(sw) {
+            run.violation(&sig("second-entry"), &format!("WebAssembly launcher of the second entry module prints {:?} / ends with {} next to `{}` ({order})", sw.lines, rend(&sw.ending), e.prog.name), payload(json!(null)));
+          }
+        }
+        "C04" => {
+          for (which, w, t) in [("program entry", mw, mt), ("second entry", sw, st)] {
+            if matches!(w.ending, REnding::Stack) || matches!(t.ending, REnding::Stack) {
+              continue;
+            }
+            let ending_same = match (&w.ending, &t.ending) {
+              (REnding::Return, REnding::Return) => true,
+              (REnding::Panic(a), REnding::Panic(b)) => a == b,
+              _ => false,
+            };
+            if !ending_same || w.lines != t.lines {
+              run.violation(&sig(&format!("{which}:backends-differ")), &format!("the launchers of the {which} differ between the back ends (wasm {} / ts {}; {}) for `{}` ({order})", rend(&w.ending), rend(&t.ending), first_diff(&w.lines, &t.lines), e.prog.name), payload(json!({"wasm": w.lines, "ts": t.lines})));
+            }
+          }
+        }
+        _ => {
+          for (which, x) in [("program entry wasm", mw), ("program entry ts", mt), ("second entry wasm", sw), ("second entry ts", st)] {
+            match &x.ending {
+              REnding::Fault(k, m) => run.violation(&sig(&format!("{which}:fault:{k}")), &format!("{which}: {k}: {} for `{}` ({order})", m.chars().take(160).collect::<String>(), e.prog.name), payload(json!(null))),
+              REnding::Hang => run.violation(&sig(&format!("{which}:hang")), &format!("{which} did not terminate for `{}` ({order})", e.prog.name), payload(json!(null))),
+              REnding::Trap(k) if which.starts_with("second") => run.violation(&sig(&format!("{which}:trap:{k}")), &format!("{which} ends in an engine-level fault ({k}) next to `{}` ({order})", e.prog.name), payload(json!(null))),
+              _ => {}
+            }
+          }
+        }
+      }
+    }
+    layout_report = json!({"programs_one_per_family_and_shape": picked.len(), "compilations_with_two_entry_points": layouts.len(), "launchers_run": layouts.iter().filter(|l| l.main.is_some()).count() * 4});
+  }
   // ---- C03 (b): accepted single-edit mutants of the repository's sample programs ----
   let mut mutant_report = json!(null);
   if id == "C03" {
@@ -308,10 +401,7 @@ pub fn run_property(id: &'static str) -> ! {
   let mut illtyped_report = json!(null);
   if id == "C03" {
     use rayon::prelude::*;
-    let mut cases: Vec<crate::illtyped::Ill> = crate::illtyped::conformance();
-    cases.extend(crate::illtyped::visibility());
-    cases.extend(crate::illtyped::scope_escape());
-    cases.extend(crate::illtyped::bounds());
+    let mut cases: Vec<crate::illtyped::Ill> = crate::illtyped::all_generated();
     for a in crate::illtyped::arity() {
       cases.push(crate::illtyped::Ill { kind: "call-shape", what: a.what, modules: vec![("Main".into(), a.text)], target: "Main".into() });
     }
@@ -358,6 +448,7 @@ pub fn run_property(id: &'static str) -> ! {
       "compared": compared,
       "dropped_unspecified": dropped_unspecified,
       "family_programs_rejected_by_the_front_end_and_skipped": {"count": rejected_by_front_end.len(), "first": rejected_by_front_end.iter().take(5).collect::<Vec<_>>()},
+      "project_layouts_multi_segment_module_and_two_entry_points": layout_report,
       "accepted_single_edit_mutants": mutant_report,
       "generated_conformance_visibility_call_shape_programs": illtyped_report,
       "exhaustive": true,
